@@ -42,7 +42,7 @@ THEOREMS = [
     'C05.wrap_flags_unique', 'C05.boxSetApi_refuses_iff', 'C05.wrapApi_spec', 'C05.api_wrap_reconstruct',
     'C05.normalizeApi_style_iff', 'C05.api_normalize_never_refuses',
     'C05.lammps_normal_unique', 'C05.normalize_cell_unique', 'C05.normalize_of_lammps_normal',
-    'C05.copyKeys_complete', 'C05.copyKeys_nodup',
+    'C05.copyKeys_complete', 'C05.copyKeys_nodup', 'C05.api_boxSet_scale',
     # source tie (Proofs/C05_Source.lean): every definition regenerated from /repo by translate() equals the hand model
     'C05.gen_defaults_eq_model', 'C05.gen_flagTests_eq_model', 'C05.gen_literals_eq_model', 'C05.transformOK_eq_with',
     'C05.gen_protocol_eq_model', 'C05.gen_axisBounds_eq_model', 'C05.gen_axisFlag_eq_model', 'C05.gen_paddedBox_eq_model',
@@ -3747,6 +3747,7 @@ def translate():
     # wrap
     fn = method(S, 'wrap')
     out['wrapFlagDefault'] = pyval(default_of(fn, 'return_imageflags'))
+    out['wrapParams'] = [a.arg for a in fn.args.args]
     prog = []
     inits = {}
     formulas = {}
@@ -3843,6 +3844,7 @@ def translate():
     # System.normalize
     fn = method(S, 'normalize')
     out['normStyleDefault'] = pyval(default_of(fn, 'style'))
+    out['normParams'] = [a.arg for a in fn.args.args]
     out['normFlagDefault'] = pyval(default_of(fn, 'return_transform'))
     b = body_of(fn)
     if not (len(b) == 1 and isinstance(b[0], ast.If) and isinstance(b[0].test, ast.Compare) and U(b[0].test.left) == 'style'
@@ -4186,6 +4188,10 @@ def translate():
     A(f'def normStyleRefusal : Err := {out["normStyleRefusal"]}')
     A(f'/-- `atomman.lammps.normalize(system, return_transform=…)` -/\ndef lmpFlagDefault : PyVal := {out["lmpFlagDefault"]}')
     A(f'/-- `if <test>: return system, transformation else: return system` -/\ndef lmpReturnsTransform (v : PyVal) : Bool := {out["lmpReturnsTransform"]}')
+    A('/-- positional order of the parameters of `System.wrap`, `System.normalize`, `lammps.normalize` -/')
+    A(f'def wrapParams : List String := {strs(out["wrapParams"])}')
+    A(f'def normParams : List String := {strs(out["normParams"])}')
+    A('def lmpParams : List String := ["system", "return_transform"]')
     A('')
     A('/-! ### the bodies as statement lists (order as in the source) -/')
     A(f'def boxSetScaledBody : List Stmt := {lst(out["boxSetScaledBody"])}')
